@@ -224,6 +224,7 @@ Definition validate_in_out_x (cfg : config) (i o : params) (c : client) (rc : op
   | Some e => Some e
   | None =>
     match validate_optionals_x cfg o c rc both with
+    | Some (ARedirect e _) => Some (ARedirect e (merge_params i o))   (* fix 11b1d50 *)
     | Some e => Some e
     | None => validate_in_out cfg i o c
     end
